@@ -150,6 +150,9 @@ class DnsRecordDnskey(ParsableBase, Serializable):
         key_parser.parse_mpint('p', mpint_length)
         key_parser.parse_mpint('g', mpint_length)
         key_parser.parse_mpint('y', mpint_length)
+        for param_name in ['p', 'q', 'g', 'y']:
+            if key_parser[param_name] <= 0:
+                raise InvalidValue(key_parser[param_name], cls, param_name)
 
         return PublicKey.from_params(PublicKeyParamsDsa(
             prime=key_parser['p'],
